@@ -35,6 +35,8 @@ pub enum SeedSpec {
     Scale { seed: u64 },
     /// many traks whose parameter-set lengths point beyond their box into planted data
     LengthChain { seed: u64 },
+    /// many sample descriptions whose esds descriptor lengths reach beyond their box
+    DescriptorChain { seed: u64 },
 }
 
 impl SeedSpec {
@@ -51,6 +53,7 @@ impl SeedSpec {
             SeedSpec::MuxShuffled { .. } => "mux_shuffled",
             SeedSpec::Scale { .. } => "scale",
             SeedSpec::LengthChain { .. } => "length_chain",
+            SeedSpec::DescriptorChain { .. } => "descriptor_chain",
         }
     }
 }
@@ -718,6 +721,7 @@ pub fn build(spec: &SeedSpec) -> SeedImage {
             SeedImage { bytes: b, init_len: l }
         }
         SeedSpec::LengthChain { seed } => SeedImage { bytes: length_chain_image(*seed), init_len: None },
+        SeedSpec::DescriptorChain { seed } => SeedImage { bytes: descriptor_chain_image(*seed), init_len: None },
         SeedSpec::Scale { seed } => {
             let (b, l) = scale_image(*seed);
             SeedImage { bytes: b, init_len: l }
@@ -737,6 +741,9 @@ pub fn gen_spec(r: &mut Rng) -> SeedSpec {
     }
     if r.chance(1, 400) {
         return SeedSpec::LengthChain { seed: r.below(1 << 30) };
+    }
+    if r.chance(1, 600) {
+        return SeedSpec::DescriptorChain { seed: r.below(1 << 30) };
     }
     match r.below(28) {
         20..=25 => SeedSpec::Grammar { seed: r.below(1 << 40) },
@@ -1261,11 +1268,12 @@ pub fn scale_image(seed: u64) -> (Vec<u8>, Option<usize>) {
 pub fn length_chain_image(seed: u64) -> Vec<u8> {
     let mut r = Rng::new(seed ^ 0xC4A1);
     let t = 40 + r.below(200) as usize;
-    // one valid AVC trak from the real muxer
+    let hevc = seed % 2 == 1;
+    // one valid AVC / HEVC trak from the real muxer
     let sc = MuxScenario {
         cfg: MovieCfg { major: *b"isom", minor: 512, compat: vec![], timescale: 1000 },
         ops: vec![
-            Op::AddTrack(TrackCfg { kind: Kind::Avc, track_type: 0, timescale: 1000, language: "und".into(), width: 16, height: 16, sps: vec![0x67, 0x42, 0, 0x1f], pps: vec![0x68], aac_profile: 2, freq_index: 3, chan_conf: 2, bitrate: 0 }),
+            Op::AddTrack(TrackCfg { kind: if hevc { Kind::Hevc } else { Kind::Avc }, track_type: 0, timescale: 1000, language: "und".into(), width: 16, height: 16, sps: vec![0x67, 0x42, 0, 0x1f], pps: vec![0x68], aac_profile: 2, freq_index: 3, chan_conf: 2, bitrate: 0 }),
             Op::End,
         ],
         start_pos: 0,
@@ -1273,36 +1281,58 @@ pub fn length_chain_image(seed: u64) -> Vec<u8> {
         preexisting: 0,
         fault: None,
     };
-    let base = mux_bytes(&sc);
+    let mut base = mux_bytes(&sc);
+    if hevc {
+        // give the hvcC one parameter-set array with two NAL units whose first length field is
+        // the last thing inside the box: 22 bytes of configuration, numOfArrays = 1,
+        // array header (type, numNalus = 2), length of the first unit
+        let nodes = walk(&base);
+        let Some(h) = nodes.iter().find(|n| n.is(b"hvcC")) else { return base };
+        if h.size < h.hdr + 23 {
+            return base;
+        }
+        let mut body = base[h.body()..h.body() + 22].to_vec();
+        body.push(1);
+        body.push(0x20);
+        body.extend_from_slice(&2u16.to_be_bytes());
+        body.extend_from_slice(&0xFFFFu16.to_be_bytes());
+        let nb = bx(b"hvcC", &body);
+        let (st, sz) = (h.start, h.size);
+        splice(&mut base, &nodes, h.parent, st, sz, &nb);
+    }
     let nodes = walk(&base);
-    let (Some(ftyp), Some(mvhd), Some(trak), Some(avcc)) = (
+    let cfg_box: &[u8; 4] = if hevc { b"hvcC" } else { b"avcC" };
+    let (Some(ftyp), Some(mvhd), Some(trak), Some(cfgn)) = (
         nodes.iter().find(|n| n.depth == 0 && n.is(b"ftyp")),
         nodes.iter().find(|n| n.is(b"mvhd")),
         nodes.iter().find(|n| n.depth == 1 && n.is(b"trak")),
-        nodes.iter().find(|n| n.is(b"avcC")),
+        nodes.iter().find(|n| n.is(cfg_box)),
     ) else {
         return base;
     };
     let trak_bytes = base[trak.start..trak.end()].to_vec();
-    let sps_len_at = avcc.body() + 6 - trak.start; // u16 length of the first SPS, relative to the trak
+    // u16 length of the first parameter set, relative to the trak
+    let len_at = if hevc { cfgn.end() - 2 - trak.start } else { cfgn.body() + 6 - trak.start };
     let moov_body_start = ftyp.size + 8 + mvhd.size; // offset of the first trak in the new file
     let trak_len = trak_bytes.len();
     let mut moov_kids = base[mvhd.start..mvhd.end()].to_vec();
     for i in 0..t {
         let mut tb = trak_bytes.clone();
-        tb[sps_len_at..sps_len_at + 2].copy_from_slice(&0xFFFFu16.to_be_bytes());
-        // two parameter sets are declared (low 5 bits of byte 5)
-        tb[sps_len_at - 1] = 0xE2;
+        tb[len_at..len_at + 2].copy_from_slice(&0xFFFFu16.to_be_bytes());
+        if !hevc {
+            // two sequence parameter sets are declared (low 5 bits of the byte in front)
+            tb[len_at - 1] = 0xE2;
+        }
         // distinct track ids (tkhd is the first child: version/flags + 2 times + id)
         let tk = 8 + 8 + 4 + 8;
         tb[tk..tk + 4].copy_from_slice(&(i as u32 + 1).to_be_bytes());
         moov_kids.extend_from_slice(&tb);
     }
     let moov = bx(b"moov", &moov_kids);
-    // first SPS of trak i: data at p_i = moov_body_start + i*trak_len + sps_len_at + 2, 65535 bytes;
-    // second SPS length at p_i + 65535 must read FFFF, its data another 65535 bytes, then the PPS
-    // count at p_i + 2*65535 + 2 must read 0
-    let p0 = moov_body_start + sps_len_at + 2;
+    // first unit of trak i: data at p_i = moov_body_start + i*trak_len + len_at + 2, 65535 bytes;
+    // the second unit's length at p_i + 65535 must read FFFF, its data another 65535 bytes; for
+    // avcC the picture-parameter-set count that follows must read 0
+    let p0 = moov_body_start + len_at + 2;
     let p_last = p0 + (t - 1) * trak_len;
     let ff_from = p0 + 65535;
     let ff_to = p_last + 65535 + 2;
@@ -1319,6 +1349,78 @@ pub fn length_chain_image(seed: u64) -> Vec<u8> {
     }
     out.extend(bx(b"free", &free_body));
     out
+}
+
+/// "Descriptor chain" image: one AAC track whose sample table holds K sample-description boxes
+/// (a parser keeps the last), each with an esds whose ES descriptor declares a length reaching
+/// far beyond the box, into zero filler behind the movie header. Descriptor walking costs a few
+/// stream calls per two bytes, so a parser that does not bound descriptors by their box walks the
+/// same filler K times.
+pub fn descriptor_chain_image(seed: u64) -> Vec<u8> {
+    let mut r = Rng::new(seed ^ 0xDE5C);
+    let k = 30 + r.below(120) as usize;
+    let filler = 20_000 + r.below(60_000) as usize;
+    let sc = MuxScenario {
+        cfg: MovieCfg { major: *b"isom", minor: 512, compat: vec![], timescale: 1000 },
+        ops: vec![
+            Op::AddTrack(TrackCfg { kind: Kind::Aac, track_type: 1, timescale: 48000, language: "und".into(), width: 0, height: 0, sps: vec![], pps: vec![], aac_profile: 2, freq_index: 3, chan_conf: 2, bitrate: 128_000 }),
+            Op::End,
+        ],
+        start_pos: 0,
+        io: IoKnobs::plain(),
+        preexisting: 0,
+        fault: None,
+    };
+    let mut base = mux_bytes(&sc);
+    // 1. give the ES descriptor a 4-byte length field (3 bytes longer)
+    let nodes = walk(&base);
+    let Some(e) = nodes.iter().find(|n| n.is(b"esds")) else { return base };
+    let eb = e.body();
+    if base.get(eb + 4) != Some(&0x03) || base[eb + 5] & 0x80 != 0 {
+        return base;
+    }
+    let old_len = base[eb + 5] as u32;
+    let mut body = base[eb..eb + 5].to_vec();
+    body.extend_from_slice(&[0x80, 0x80, 0x80, old_len as u8]);
+    body.extend_from_slice(&base[eb + 6..e.end()]);
+    // a trailing descriptor of an unknown kind (skipped by its length) whose payload lies
+    // outside the box: it carries the walk over the boxes that follow, into the filler
+    body.extend_from_slice(&[0x7F, 0x80, 0x80, 0x80, 0x00]);
+    let nb = bx(b"esds", &body);
+    let (st, sz) = (e.start, e.size);
+    splice(&mut base, &nodes, e.parent, st, sz, &nb);
+    // 2. K further copies of the stsd box at the end of stbl, each with its own huge length
+    let nodes = walk(&base);
+    let (Some(stsd), Some(stbl_i)) = (nodes.iter().find(|n| n.is(b"stsd")), nodes.iter().position(|n| n.is(b"stbl"))) else {
+        return base;
+    };
+    let stsd_bytes = base[stsd.start..stsd.end()].to_vec();
+    let Some(e) = nodes.iter().find(|n| n.is(b"esds")) else { return base };
+    let len_at = e.body() + 5 - stsd.start; // 4-byte descriptor length, relative to the stsd copy
+    let slen = stsd_bytes.len();
+    let mut copies = Vec::with_capacity(k * slen);
+    for j in 0..k {
+        let mut c = stsd_bytes.clone();
+        // from the byte after the length field to 64 bytes before the end of the filler
+        let after_len = len_at + 4;
+        let dist = (slen - after_len) + (k - 1 - j) * slen + 8 + filler - 64;
+        let put = |c: &mut Vec<u8>, at: usize, l: u32| {
+            c[at] = 0x80 | ((l >> 21) & 0x7F) as u8;
+            c[at + 1] = 0x80 | ((l >> 14) & 0x7F) as u8;
+            c[at + 2] = 0x80 | ((l >> 7) & 0x7F) as u8;
+            c[at + 3] = (l & 0x7F) as u8;
+        };
+        put(&mut c, len_at, dist as u32);
+        // the skip descriptor is the last 5 bytes of the copy: jump over the following copies
+        // and the 8-byte header of the filler box
+        put(&mut c, slen - 4, ((k - 1 - j) * slen + 8) as u32);
+        copies.extend_from_slice(&c);
+    }
+    let at = nodes[stbl_i].end();
+    splice(&mut base, &nodes, Some(stbl_i), at, 0, &copies);
+    // 3. zero filler right behind the movie header (moov is the last box of muxer output)
+    base.extend(bx(b"free", &vec![0u8; filler]));
+    base
 }
 
 /// Returns (bytes, init_len if a fragmented tail was generated).
